@@ -38,6 +38,7 @@ def report : List (String × String × List String × List String) :=
     ("C15,C07", "OwnedLockable for a non-owning type", c15_ownedLockable.map nm, []),
     ("C15,C07", "unchecked constructor without OwnedLockable / unsafe", pr c15_uncheckedConstructors, []),
     ("C15", "shared access into an owned collection", pr c15_ownedSharedAccess, []),
+    ("C15,C07,C01", "mutable access to the container of a checked collection without OwnedLockable (a duplicate can be added after try_new)", pr c15_mutableAccessToChecked, []),
     ("C15", "raw entry point not unsafe", c15_unsafeEntryPoints.map nm, []),
     ("C15", "Deref does not tie the reference to the guard borrow", c15_derefLifetimes.map nm, []),
     ("C15,C04,C13", "try path reaches a blocking operation", c04_tryReachesBlocking.map nm, []),
